@@ -27,7 +27,7 @@ RULE = ("merge_coolers: regression corpus (D16 all-empty / leading empty rows wi
         "both storage modes, columns count / count+x, agg sum/max/min, dtype overrides, mergebuf sampled from 1..nnz+1 always incl. 1 and nnz+1); "
         "all input orders for k<=3; nested merges (3 tree shapes); incompatible pairs of each kind; values at the dtype limits; `cooler merge` CLI; "
         "merge_breakpoints at function level: every family of 1..2 monotone index arrays of length 2..4 with increments 0..2 x bufsize 1..nnz+1, plus random "
-        "larger families. non-trivial = at least two inputs with a shared pixel or a partition with >= 2 epochs or a refusal; distinct by input hash")
+        "larger families; parameter/representation audit (one case each): dtypes full / partial / narrowing / float / unsigned dict, agg full / partial dict, unsigned and float input columns mixed with signed ones (oracle only: the model covers signed integers), bin tables with extra columns, inputs and output addressed by URI inside multi-group files, mode=a / --append next to an existing cooler, CLI default chunk size and --field dtype/agg specs, huge mergebuf. non-trivial = at least two inputs with a shared pixel or a partition with >= 2 epochs or a refusal; distinct by input hash")
 TRUSTED = ["pandas concat + groupby(sort=True).aggregate, np.result_type, h5py dataset I/O are observed through merge_coolers, modelled by "
            "Model/Merge.v (group/groupby_agg, widest signed width, int64 wrap-around of integer sums)",
            "input coolers are written by cooler.create_cooler (ordered path) and read back raw with h5py before they are handed to the model"]
@@ -55,12 +55,19 @@ class Workspace:
         key = canon(inp)
         if key not in self.cache:
             path = os.path.join(self.root, f"in{len(self.cache)}.cool")
+            mode = "w"
+            if inp.get("group"):
+                # several inputs live in ONE multi-group file and are addressed by URI
+                multi = os.path.join(self.root, "multi_inputs.mcool")
+                mode = "a" if os.path.exists(multi) else "w"
+                path = multi + "::" + inp["group"]
             self.cache[key] = path
             try:
                 with warnings.catch_warnings():
                     warnings.simplefilter("ignore")
                     with G.time_limit(20.0):
-                        G.write_cooler(path, inp["ax"], inp["symm"], [tuple(c) for c in inp["cols"]], inp["px"])
+                        G.write_cooler(path, inp["ax"], inp["symm"], [tuple(c) for c in inp["cols"]], inp["px"],
+                                       bins_extra=bool(inp.get("bins_extra")), mode=mode)
                         self.raw[key] = G.read_raw(path, [c for c, _ in inp["cols"]])
             except BaseException as e:  # noqa: BLE001  (the input could not be written: a result, not a crash)
                 if isinstance(e, (KeyboardInterrupt, SystemExit)):
@@ -95,18 +102,24 @@ def _merge_api(out, uris, case):
         kw["dtypes"] = {c: G.np_dtype(b) for c, b in case["dtypes"].items()}
     if case.get("agg"):
         kw["agg"] = dict(case["agg"])
+    if case.get("mode_a"):
+        kw["mode"] = "a"
     cooler.merge_coolers(out, uris, mergebuf=case["mergebuf"], **kw)
 
 
 def _merge_cli(out, uris, case):
     from click.testing import CliRunner
     from cooler.cli import cli
-    args = ["merge", out] + list(uris) + ["-c", str(case["mergebuf"])]
+    args = ["merge", out] + list(uris)
+    if not case.get("default_chunksize"):
+        args += ["-c", str(case["mergebuf"])]
+    if case.get("mode_a"):
+        args.append("--append")
     if case.get("columns") is not None:
         for c in case["columns"]:
             props = []
             if c in (case.get("dtypes") or {}):
-                props.append("dtype=int%d" % case["dtypes"][c])
+                props.append("dtype=" + np.dtype(G.np_dtype(case["dtypes"][c])).name)
             if c in (case.get("agg") or {}):
                 props.append("agg=" + case["agg"][c])
             args += ["--field", c + (":" + ",".join(props) if props else "")]
@@ -127,28 +140,42 @@ def impl_run(ws, case, limit=20.0):
     merge = _merge_cli if case.get("via") == "cli" else _merge_api
     made = []
 
-    def ev(node):
+    keep = {}
+
+    def ev(node, top=False):
         if isinstance(node, int):
             return paths[node]
         uris = [ev(ch) for ch in node]
         out = ws.fresh()
         made.append(out)
+        if top and case.get("mode_a"):
+            # the output file already holds another cooler, which must survive the appended merge
+            G.write_cooler(out + "::/keep/me", "A3", True, C32, [[0, 1, [7]], [2, 2, [1]]])
+            keep["before"] = G.read_raw(out + "::/keep/me")
+        if top and case.get("out_group"):
+            out = out + "::" + case["out_group"]
         merge(out, uris, case)
         return out
     try:
         with warnings.catch_warnings():
             warnings.simplefilter("ignore")
             with G.time_limit(limit):
-                out = ev(tree)
+                out = ev(tree, top=True)
                 want = case["columns"] if case.get("columns") is not None else ["count"]
                 raw = G.read_raw(out, want)
-        return G.obs_of_raw(raw)
+                obs = G.obs_of_raw(raw)
+                if case.get("mode_a"):
+                    obs["kept"] = G.read_raw(out.split("::")[0] + "::/keep/me") == keep["before"]
+                if case.get("check_bins"):
+                    obs["bins_cols"] = raw["bins_cols"]
+        return obs
     except BaseException as e:  # noqa: BLE001  (a crash/timeout is a result to compare)
         if isinstance(e, (KeyboardInterrupt, SystemExit)):
             raise
         return G.classify(e)
     finally:
         for p in made:
+            p = p.split("::")[0]
             if os.path.exists(p):
                 os.remove(p)
 
@@ -189,6 +216,21 @@ def _axes_equal(a, b):
     return G.AXES[a] == G.AXES[b]
 
 
+def _fits(tok, v):
+    """does the exact aggregate v fit the output dtype token?"""
+    if isinstance(tok, int):
+        return isinstance(v, int) and -2 ** (tok - 1) <= v <= 2 ** (tok - 1) - 1
+    if tok.startswith("u"):
+        return isinstance(v, int) and 0 <= v <= 2 ** int(tok[1:]) - 1
+    return True        # float output (values are small multiples of 0.5: exact)
+
+
+def modelled(case):
+    """the Gallina model covers signed integer value columns; other dtypes are checked against the oracle only"""
+    toks = [b for i in case["inputs"] for _, b in i["cols"]] + list((case.get("dtypes") or {}).values())
+    return all(G.is_signed_int(t) for t in toks)
+
+
 def oracle(case):
     """expected observable by exact integer arithmetic, or 'refuse'.  Also returns whether some exact
     aggregate leaves the int64 range (signature of the known finding)."""
@@ -213,7 +255,9 @@ def oracle(case):
             return "refuse"
         if any(c not in k["bits"] for k in kids for c in cols_req):
             return "refuse"
-        bits = {c: (case.get("dtypes") or {}).get(c, max(k["bits"][c] for k in kids)) for c in cols_req}
+        # output dtype: the caller's entry for that column, else numpy's common type of the inputs
+        bits = {c: (case.get("dtypes") or {}).get(c, G.tok_of(np.result_type(*[G.np_dtype(k["bits"][c]) for k in kids])))
+                for c in cols_req}
         tab = {}
         for k in kids:
             for key, row in k["tab"].items():
@@ -224,16 +268,16 @@ def oracle(case):
             for c in cols_req:
                 vs = [r[c] for r in rows]
                 v = sum(vs) if agg[c] == "sum" else (max(vs) if agg[c] == "max" else min(vs))
-                if not (I64[0] <= v <= I64[1]):
+                if isinstance(v, int) and not (I64[0] <= v <= I64[1]):
                     flags["i64"] = True
-                if not (-2 ** (bits[c] - 1) <= v <= 2 ** (bits[c] - 1) - 1):
+                if not _fits(bits[c], v):
                     return "refuse"
-                o[c] = v
+                o[c] = float(v) if str(bits[c]).startswith("f") else v
             out[key] = o
         if "count" in cols_req and not flags["i64"]:
             # "its recorded total is the sum of the input totals": a total that cannot be recorded must be an error
             tot = sum(o["count"] for o in out.values())
-            if not (I64[0] <= tot <= I64[1]):
+            if isinstance(tot, int) and not (I64[0] <= tot <= I64[1]):
                 flags["tot64"] = True
                 return "refuse"
         return {"ax": k0["ax"], "symm": k0["symm"], "bits": bits, "tab": out}
@@ -290,13 +334,15 @@ def verdict(ctx, case, got, exp, i64):
 
 
 # --------------------------------------------------------------------- case generation
-def inp(ax, symm, cols, px):
-    return {"ax": ax, "symm": bool(symm), "cols": [list(c) for c in cols], "px": [[p[0], p[1], list(p[2])] for p in px]}
+def inp(ax, symm, cols, px, **rep):
+    d = {"ax": ax, "symm": bool(symm), "cols": [list(c) for c in cols], "px": [[p[0], p[1], list(p[2])] for p in px]}
+    d.update(rep)          # representation: group="/a/b" (inside a multi-group file), bins_extra=True
+    return d
 
 
 def mk(inputs, mergebuf, **kw):
     c = {"fn": "merge", "via": kw.pop("via", "api"), "inputs": inputs, "mergebuf": int(mergebuf)}
-    for k in ("columns", "dtypes", "agg", "order", "tree"):
+    for k in ("columns", "dtypes", "agg", "order", "tree", "mode_a", "out_group", "check_bins", "default_chunksize"):
         if kw.get(k) is not None:
             c[k] = kw[k]
     return c
@@ -515,6 +561,68 @@ def cli_cases(rng):
     return cs
 
 
+def audit_cases(rng):
+    """one cheap case per public parameter value / input representation / dtype that the families above do not
+    reach (audit of merge_coolers, `cooler merge`, CoolerMerger); oracle = dict of sums, model where it applies"""
+    cs = []
+    c2 = [("count", 32), ("x", 16)]
+    a = inp("B5", True, c2, [(0, 1, [3, -2]), (1, 1, [2, 7]), (3, 4, [1, 1])])
+    b = inp("B5", True, c2, [(1, 1, [5, 9]), (2, 2, [1, 0]), (3, 4, [1, 4])])
+    both = ["count", "x"]
+    # dtypes: full dict, dict omitting a requested column (fallback to result_type), narrowing that fits / does not fit
+    cs.append(("audit:dtypes", mk([a, b], 2, columns=both, dtypes={"count": 64, "x": 32})))
+    cs.append(("audit:dtypes", mk([a, b], 2, columns=both, dtypes={"x": 64})))
+    cs.append(("audit:dtypes", mk([a, b], 2, columns=both, dtypes={"count": 16})))
+    cs.append(("audit:dtypes", mk([a, b], 2, columns=both, dtypes={"count": 8, "x": 8})))
+    cs.append(("audit:dtypes", mk([a, b], 1, columns=both, dtypes={"x": 8})))                                  # 7 + 9 fits int8
+    cs.append(("audit:dtypes", mk([a, inp("B5", True, c2, [(1, 1, [5, 127])])], 1, columns=both, dtypes={"x": 8})))   # 7 + 127 does not
+    cs.append(("audit:dtypes", mk([a, b], 3, columns=both, dtypes={"count": "f64"})))                         # float output for an int column
+    cs.append(("audit:dtypes", mk([a, b], 3, columns=["x"], dtypes={"x": "f32"}, agg={"x": "max"})))
+    cs.append(("audit:dtypes", mk([a, b], 3, dtypes={"count": "u16"})))                                       # unsigned output
+    cs.append(("audit:dtypes", mk([a, b], 3, columns=both, dtypes={"x": "u8"})))                              # -2 does not fit uint8
+    # agg: full dict, partial dict, explicit sum
+    cs.append(("audit:agg", mk([a, b, a], 2, columns=both, agg={"count": "sum", "x": "max"})))
+    cs.append(("audit:agg", mk([a, b, a], 2, columns=both, agg={"count": "min", "x": "min"})))
+    cs.append(("audit:agg", mk([a, b], 4, columns=["x", "count"], agg={"count": "max"})))
+    # input value dtypes: unsigned and float, mixed with signed (np.result_type decides the output)
+    u8 = [("count", "u8")]
+    cs.append(("audit:in-dtype", mk([inp("A4", True, u8, [(0, 1, [200]), (1, 1, [3])]), inp("A4", True, u8, [(0, 1, [55]), (2, 3, [9])])], 1)))
+    cs.append(("audit:in-dtype", mk([inp("A4", True, u8, [(0, 1, [200])]), inp("A4", True, u8, [(0, 1, [56])])], 1)))            # 256 leaves uint8
+    cs.append(("audit:in-dtype", mk([inp("A4", True, u8, [(0, 1, [200])]), inp("A4", True, [("count", 8)], [(0, 1, [100]), (1, 2, [-3])])], 2)))   # -> int16
+    cs.append(("audit:in-dtype", mk([inp("A4", False, [("count", "u16")], [(3, 0, [60000])]), inp("A4", False, [("count", "u32")], [(3, 0, [70000])])], 2)))
+    cs.append(("audit:in-dtype", mk([inp("A4", True, [("count", "u32")], [(0, 0, [4000000000])]), inp("A4", True, C32, [(0, 0, [-5])])], 2)))      # -> int64
+    cs.append(("audit:in-dtype", mk([inp("A4", True, [("count", "u32")], [(0, 0, [4000000000])]), inp("A4", True, [("count", "u32")], [(0, 0, [400000000])])], 2)))   # leaves uint32
+    fx = [("count", 32), ("x", "f64")]
+    fa = inp("A4", True, fx, [(0, 1, [1, 0.5]), (1, 2, [2, 1.5])])
+    fb = inp("A4", True, fx, [(0, 1, [4, 2.5]), (3, 3, [1, -0.5])])
+    cs.append(("audit:in-dtype", mk([fa, fb], 1, columns=["count", "x"])))
+    cs.append(("audit:in-dtype", mk([fa, fb, fa], 2, columns=["x"], agg={"x": "max"})))
+    cs.append(("audit:in-dtype", mk([inp("A4", True, [("count", "f32")], [(0, 1, [1.5])]), inp("A4", True, [("count", "f64")], [(0, 1, [2.25]), (2, 2, [8.0])])], 3)))
+    cs.append(("audit:in-dtype", mk([fa, inp("A4", True, [("count", 32), ("x", 16)], [(0, 1, [1, 3])])], 2, columns=["count", "x"])))  # float + int column
+    # input representation: bin tables with extra columns; inputs addressed by URI inside one multi-group file
+    wa = inp("B5", True, C32, [(0, 1, [3]), (1, 1, [2])], bins_extra=True)
+    wb = inp("B5", True, C32, [(1, 1, [5]), (4, 4, [1])])
+    cs.append(("audit:bins-extra", mk([wa, wb], 2, check_bins=True)))
+    cs.append(("audit:bins-extra", mk([wb, wa], 2, check_bins=True)))
+    ga = inp("V4", True, C32, [(0, 1, [3]), (1, 1, [2])], group="/resolutions/10")
+    gb = inp("V4", True, C32, [(1, 1, [5]), (2, 3, [1])], group="/a/b/c")
+    gc = inp("V4", True, C32, [(0, 3, [4])])
+    cs.append(("audit:uri", mk([ga, gb], 1)))
+    cs.append(("audit:uri", mk([gc, ga, gb], 2, out_group="/merged/x")))
+    cs.append(("audit:uri", mk([ga, gb], 2, via="cli", out_group="/m")))
+    # mode: append into a file that already holds another cooler (API mode="a", CLI --append)
+    cs.append(("audit:mode", mk([a, b], 2, mode_a=True, out_group="/new")))
+    cs.append(("audit:mode", mk([a, b], 2, mode_a=True, out_group="/new", via="cli")))
+    cs.append(("audit:mode", mk([a, b], 2, out_group="/only")))
+    # CLI: default chunk size (20e6), --field with dtype / agg properties
+    cs.append(("audit:cli", mk([a, b], 20000000, via="cli", default_chunksize=True)))
+    cs.append(("audit:cli", mk([a, b], 2, via="cli", columns=both, dtypes={"count": "f64", "x": 32}, agg={"x": "sum"})))
+    cs.append(("audit:cli", mk([a, b], 2, via="cli", columns=["x"], dtypes={"x": 8})))
+    # mergebuf 0 and negative are outside the documented domain; a huge one is the default
+    cs.append(("audit:mergebuf", mk([a, b, a], 10 ** 9)))
+    return cs
+
+
 def nontrivial(case, exp):
     if exp == "refuse":
         return True
@@ -639,21 +747,34 @@ def run(ctx):
     cases += nested_cases(rng, 40 if thorough else 10)
     cases += incompatible_cases(rng)
     cases += cli_cases(rng)
+    cases += audit_cases(rng)
 
-    exprs = [model_expr(ws, case) for _, case in cases]
-    model = C.coq_eval(G.IMPORTS, exprs, tmpdir=ctx.tmp / "mv", shard=120, jobs=4)
+    idx = [i for i, (_, case) in enumerate(cases) if modelled(case)]
+    exprs = [model_expr(ws, cases[i][1]) for i in idx]
+    mvals = dict(zip(idx, C.coq_eval(G.IMPORTS, exprs, tmpdir=ctx.tmp / "mv", shard=120, jobs=4)))
+    model = [mvals.get(i) for i in range(len(cases))]
     timeouts = 0
     order_groups = {}
     for (kind, case), mo in zip(cases, model):
         exp, i64 = oracle(case)
+        if isinstance(exp, dict):
+            if case.get("mode_a"):
+                exp["kept"] = True
+            if case.get("check_bins"):
+                exp["bins_cols"] = ["chrom", "end", "start"]
         ctx.case(case, nontrivial=nontrivial(case, exp), kind=kind)
         if timeouts >= 3:
             continue
         got = impl_run(ws, case)
         if got == "timeout":
             timeouts += 1
-        mod = G.parse_obs(mo)
-        ctx.compare("merge_coolers", case, got, mod)
+        if mo is not None:
+            mod = G.parse_obs(mo)
+            if isinstance(mod, dict) and isinstance(exp, dict):
+                for k in ("kept", "bins_cols"):
+                    if k in exp:
+                        mod[k] = exp[k]
+            ctx.compare("merge_coolers", case, got, mod)
         if kind.startswith("malformed"):
             continue
         verdict(ctx, case, got, exp, i64)
@@ -681,6 +802,11 @@ def replay(ctx, case):
     ws = Workspace(str(ctx.tmp / "replay"))
     got = impl_run(ws, case)
     exp, i64 = oracle(case)
+    if isinstance(exp, dict):
+        if case.get("mode_a"):
+            exp["kept"] = True
+        if case.get("check_bins"):
+            exp["bins_cols"] = ["chrom", "end", "start"]
     print("expected:", exp)
     print("got     :", got)
     if exp == "refuse":
